@@ -15,7 +15,7 @@ import est_common as ec
 
 PROP_FILE = 'theories/Properties/C14.v'
 MODEL_FILES = ['theories/Base/Rows.v', 'theories/Model/Estimators.v', 'theories/Model/Stochastic.v']
-GEN_GROUPS = ['gfmarg', 'siptw']
+GEN_GROUPS = ['gfmarg', 'siptw', 'stmle']
 RULE = ('random categorical frames (datagen.cat_frame: 1-3 covariates of arity 2-4, both arms in every stratum, both '
         'outcome values in every cell; binary and normal outcomes; one frame in eight carries an integer weights column '
         '(StochasticIPTW only)) with models saturated in the covariates; plans: unconditional p in {0, 1, grid} and conditional '
